@@ -21,10 +21,9 @@ namespace {
 }
 
 // open known findings / valid huge configurations, excluded by construction
-bool excluded(int f, int path, int kind, size_t pos, const fam::Bytes& img, const fam::Bytes& data) {
+bool excluded(int f, int /*path*/, int kind, size_t pos, const fam::Bytes& img, const fam::Bytes& data) {
   if (kind == 2) {  // corruption
     bool empty_image = img.size() <= 16;
-    if (f == fam::F_REQ_S && path == 1 && pos == 3) return true;  // open finding: REQ<string> stream reader allocates from an unchecked compactor item count
     if (f == fam::F_CM && pos >= 8 && pos <= 12 && empty_image) return true;      // num_buckets / num_hashes of an empty image: a valid huge empty sketch
     if (f == fam::F_DENS && pos >= 8 && pos <= 11 && empty_image) return true;     // dimension of an empty image: a valid empty sketch of a huge dimension
     if ((f == fam::F_VO_I || f == fam::F_VO_S || f == fam::F_VOU || f == fam::F_EBPPS) && img.size() <= 8 && pos >= 4 && pos <= 7 && data.size() >= 8 && vf::ref_le32(data.data() + 4) > 65536) return true;  // empty image, huge k
